@@ -726,8 +726,15 @@ func main() {
 	outConc := flag.String("out-conc", "", "second output Lean file: the C14 facts (PV.FactsConc); not written when empty")
 	outFn := flag.String("out-fn", "", "fourth output Lean file: decision expressions translated into Lean functions (PV.FactsFn); not written when empty")
 	outAst := flag.String("out-ast", "", "third output Lean file: source text of the node/list primitives (PV.FactsAst); not written when empty")
+	outProg := flag.String("out-prog", "", "fifth output Lean file: whole functions translated statement by statement (PV.FactsProg); not written when empty")
 	flag.StringVar(&repo, "repo", "/repo", "repository root")
 	flag.Parse()
+	if *outProg != "" {
+		if err := writeProgFacts(*outProg); err != nil {
+			fmt.Fprintln(os.Stderr, err)
+			os.Exit(1)
+		}
+	}
 	if *outFn != "" {
 		if err := writeFnFacts(*outFn); err != nil {
 			fmt.Fprintln(os.Stderr, err)
